@@ -316,6 +316,9 @@ func PutSevEsResetBlock(data []byte, s *opb.SevEsResetBlock) error {
 	if len(data) < SizeofSevEsResetBlock {
 		return fmt.Errorf("unexpected SEV-ES reset block size %d < %d", len(data), SizeofSevEsResetBlock)
 	}
+	if s.Size >= (1 << 16) {
+		return fmt.Errorf("SEV-ES reset block size doesn't fit in 16 bits: %d", s.Size)
+	}
 	binary.LittleEndian.PutUint32(data[0:4], s.Addr)
 	binary.LittleEndian.PutUint16(data[4:6], uint16(s.Size))
 	sGUID, err := uuid.FromBytes(s.Guid)
